@@ -15,7 +15,7 @@ Record lparams := {
 
 Inductive pexpr :=
 | PName (s : str)
-| PConst (r : str) (numeric : bool)                            (* repr(value), atomic; numeric: an int, bool or float *)
+| PConst (r : str) (kind : N)                                  (* repr(value), atomic; kind 1: an int, bool or float; 2: a complex; 0: anything else *)
 | PAttr (e : pexpr) (a : str)
 | PCall (f : pexpr) (args : list pexpr) (kw : list (option str * pexpr))    (* None: double-star mapping *)
 | PBin (op : str) (l r : pexpr)                               (* op = the ast class name: Add, Pow, ... *)
@@ -48,6 +48,14 @@ Fixpoint seq_opt {A} (l : list (option A)) : option (list A) :=
 
 Definition comma : str := s2l ", ".
 
+(* repr() of an infinite float is "inf" (a name, not a literal): since fix 2be1737 it is written 1e309, inside complex values too *)
+Fixpoint no_inf (r : str) : str :=
+  match r with
+  | 105 :: 110 :: 102 :: t => s2l "1e309" ++ no_inf t
+  | c :: t => c :: no_inf t
+  | [] => []
+  end.
+
 (* None = the generator raises: KeyError for an operator without symbol, TypeError for a double-star argument *)
 Fixpoint print (fuel : nat) (e : pexpr) : option str :=
   match fuel with
@@ -57,11 +65,11 @@ Fixpoint print (fuel : nat) (e : pexpr) : option str :=
       let prs l := seq_opt (map pr l) in
       match e with
       | PName s => Some s
-      | PConst r _ => Some r
+      | PConst r kind => Some (if kind =? 0 then r else no_inf r)
       | PAttr v a =>
           match pr v with
           | Some sv => match v with
-                       | PConst _ true => Some ([40] ++ sv ++ [41] ++ [46] ++ a)      (* 1 .real: the dot must not run into the number *)
+                       | PConst _ 1 => Some ([40] ++ sv ++ [41] ++ [46] ++ a)      (* 1 .real: the dot must not run into the number *)
                        | _ => Some (sv ++ [46] ++ a)
                        end
           | None => None
